@@ -42,6 +42,10 @@ def run(prog, R, tier="quick", only_rule=None):
     # a blob file that still holds live bytes must never be judged dead (it would be marked deleted and unlinked)
     from rules.props import c09
     c09.dead_rule_shared(prog, R, "C20.h")
+    # the version file of the current version exists: no two history entries share a version id (maintenance unlinks v<id>
+    # of every entry it pops)
+    from rules.props import c04
+    c04.c04g(prog, R, rid="C20.i")
 
 
 def c20a(prog, R):
